@@ -193,7 +193,11 @@ fn build_member(idx: usize, n: usize, x: usize, cfg: &Value, picker: &mut Picker
     for j in 0..m {
         let eqb = cfg["equal_blindings"].as_bool().unwrap_or(false);
         // blindings_count < x: a witness of LOWER extension degree than the statement whose short vectors do reproduce the commitments
-        let nb = cfg["blindings_count"].as_u64().map(|v| v as usize).unwrap_or(x);
+        // (a list gives one count per opening: a RAGGED witness whose commitments are nevertheless reproduced by its short vectors)
+        let nb = match &cfg["blindings_count"] {
+            Value::Array(a) => a.get(j).and_then(|v| v.as_u64()).map(|v| v as usize).unwrap_or(x),
+            v => v.as_u64().map(|v| v as usize).unwrap_or(x),
+        };
         let zero_here = cfg["zero_blindings"].as_bool().unwrap_or(false) ||
             cfg["zero_blindings_at"].as_array().map(|a| a.iter().any(|v| v.as_u64() == Some(j as u64))).unwrap_or(false);
         let mut r: Vec<Scalar> = if zero_here {
